@@ -264,6 +264,73 @@ pub fn gen_far_case(ch: &mut Chooser) -> PlaceCase {
     PlaceCase { file, hunks, reverse, fuzz, fuzz2: fuzz + 1 + ch.below(3), cli_threads: None, long_series: 0 }
 }
 
+/// Two hunks; the full old side of the second occurs exactly only inside the region the first one has already
+/// passed (there it is out of order), while at its real place the outer context differs: the lower fuzz level
+/// fails as "misordered", the next level must still be tried and finds the real place.
+pub fn gen_frozen_copy_case(ch: &mut Chooser) -> PlaceCase {
+    let ctx = ch.range(1, 3);
+    let level = ch.range(1, ctx);
+    let pre = ch.range(0, 6);
+    let gap = ch.range(0, 8);
+    let tail = ch.range(0, 6);
+    let mut file: Vec<B> = Vec::new();
+    let mut uid = 0;
+    let mut uniq = |file: &mut Vec<B>, n: usize| {
+        for _ in 0..n {
+            file.push(B::new(format!("u{}\n", uid)));
+            uid += 1;
+        }
+    };
+    uniq(&mut file, pre);
+    let block = |damaged: bool| -> Vec<B> {
+        let mut v = Vec::new();
+        for i in 0..ctx {
+            let outer = ctx - i;
+            v.push(B::new(if damaged && outer > ctx - level { format!("other pre {}\n", i) } else { format!("pre {}\n", i) }));
+        }
+        v.push(B::new("old line\n"));
+        for i in 0..ctx {
+            let outer = i + 1;
+            v.push(B::new(if damaged && outer > ctx - level { format!("other post {}\n", i) } else { format!("post {}\n", i) }));
+        }
+        v
+    };
+    let copy_at = file.len();
+    file.extend(block(false));
+    // the line the first hunk changes, right behind the copy (its context reaches into the copy)
+    let h1_at = file.len();
+    file.push(B::new("first change\n"));
+    uniq(&mut file, gap + ctx);
+    let real_at = file.len();
+    file.extend(block(true));
+    uniq(&mut file, tail);
+    let c1 = ch.range(0, 3).min(h1_at);
+    let mut l1 = Vec::new();
+    for i in (h1_at - c1)..h1_at {
+        l1.push(HLine { tag: b' ', text: file[i].clone() });
+    }
+    l1.push(HLine { tag: b'-', text: B::new("first change\n") });
+    l1.push(HLine { tag: b'+', text: B::new("first changed\n") });
+    let s1 = ch.range(0, 3).min(gap + ctx);
+    for i in 0..s1 {
+        l1.push(HLine { tag: b' ', text: file[h1_at + 1 + i].clone() });
+    }
+    let h1 = HHunk { old_start: (h1_at - c1) as u64 + 1, new_start: (h1_at - c1) as u64 + 1, lines: l1, omit_count_one: false, func: None, bare_empty_ctx: false, localised_marker: false };
+    let mut l2 = Vec::new();
+    for i in 0..ctx {
+        l2.push(HLine { tag: b' ', text: B::new(format!("pre {}\n", i)) });
+    }
+    l2.push(HLine { tag: b'-', text: B::new("old line\n") });
+    l2.push(HLine { tag: b'+', text: B::new("new line\n") });
+    for i in 0..ctx {
+        l2.push(HLine { tag: b' ', text: B::new(format!("post {}\n", i)) });
+    }
+    let _ = copy_at;
+    let h2 = HHunk { old_start: real_at as u64 + 1, new_start: real_at as u64 + 1, lines: l2, omit_count_one: false, func: None, bare_empty_ctx: false, localised_marker: false };
+    let fuzz = ch.range(level, 3).max(level);
+    PlaceCase { file, hunks: vec![h1, h2], reverse: false, fuzz, fuzz2: fuzz + 1 + ch.below(2), cli_threads: None, long_series: 0 }
+}
+
 pub fn run_place(case: &PlaceCase, fuzz: usize, rollback: bool) -> Result<inproc::HistoryOut, Verdict> {
     let file = join_lines(&case.file);
     let texts = vec![case.patch_text()];
@@ -577,6 +644,9 @@ impl Prop for C02 {
         if ch.chance(1, 40) {
             return gen_far_case(ch);
         }
+        if ch.chance(1, 40) {
+            return gen_frozen_copy_case(ch);
+        }
         gen_place_case(ch, &o)
     }
     fn check(&self, case: &PlaceCase, cx: &mut CaseCtx) -> Verdict {
@@ -743,7 +813,7 @@ impl Prop for C20 {
     fn build(&self, ch: &mut Chooser, cx: &mut CaseCtx) -> PlaceCase {
         let o = GenOpts { max_file: cx.env.tier.pick(12, 30), max_hunks: 3, max_fuzz: 2 };
         if ch.chance(1, 24) {
-            let mut c = gen_far_case(ch);
+            let mut c = if ch.chance(1, 3) { gen_frozen_copy_case(ch) } else { gen_far_case(ch) };
             if ch.chance(1, 16) {
                 c.cli_threads = Some(*ch.pick(&[1usize, 2, 4]));
             }
